@@ -187,8 +187,10 @@ function makeEraser (prefix) {
       let alt = last.alternate
       const base = subst(gdefRaw, env2)
       // optional invocation: (t0 = obj, t1 = t0.f, t1 == null ? undefined : t1.call(t0, args))
-      if (gdefRaw.type === 'MemberExpression' && isTemp(gdefRaw.object)) {
-        const tobj = gdefRaw.object.name
+      // ... or (t0 = obj, t1 = t0?.f, t1 == null ? undefined : t1.call(t0, args)) for obj?.f?.(args)
+      const gMember = gdefRaw.type === 'ChainExpression' && gdefRaw.expression.type === 'MemberExpression' && gdefRaw.expression.optional ? gdefRaw.expression : gdefRaw
+      if (gMember.type === 'MemberExpression' && isTemp(gMember.object)) {
+        const tobj = gMember.object.name
         let found = false
         const w = (x) => {
           if (!isObj(x) || !x.type) return x
